@@ -66,6 +66,22 @@ pub fn closed_u() -> Pipeline {
     }
 }
 
+/// `from u | select {a, d} | join l=(from t | select {b}) (d == l.b)`: output columns a, d, b (distinct names)
+pub fn nested_join_u() -> Pipeline {
+    let mut p = closed_u();
+    let only_b = Pipeline { src: Source::Table("t".into()), steps: vec![Step::Select(vec![Item { alias: None, e: E::Col(1) }])] };
+    p.steps.push(Step::Join { side: Side::Inner, right: Source::Sub(Box::new(only_b)), alias: Some("l".into()), cond: Cond::Expr(E::bin(Op::Eq, E::Col(1), E::Col(2))) });
+    p
+}
+
+/// `from u | join l=q (u.d == l.b)`: an open first input, the let-table as second input
+pub fn nested_join_let() -> Pipeline {
+    Pipeline {
+        src: Source::Table("u".into()),
+        steps: vec![Step::Join { side: Side::Inner, right: Source::Let(0), alias: Some("l".into()), cond: Cond::Expr(E::bin(Op::Eq, E::Col(1), E::Col(3))) }],
+    }
+}
+
 fn col_item(i: usize) -> Item {
     Item { alias: None, e: E::Col(i) }
 }
@@ -232,6 +248,13 @@ pub fn menu(st: &GenState, prog: &Program, cfg: &GenCfg) -> Vec<Step> {
             }
             if order {
                 v.truncate(1);
+            }
+            // a sub-pipeline that itself joins: columns of its second input leave it implicitly
+            if core || naming {
+                v.push((Source::Sub(Box::new(nested_join_u())), Some("r".to_string())));
+                if prog.lets.len() == 1 {
+                    v.push((Source::Sub(Box::new(nested_join_let())), Some("r".to_string())));
+                }
             }
             // a second let-table (reader of the first) can always be joined
             if prog.lets.len() >= 2 {
